@@ -241,8 +241,13 @@ func c08Run(t *testing.T, sc Scenario, res *Result) {
 			if r.chance(1, 2) {
 				bound = int64(r.between(1, 12))
 			}
+			byInvalidDraw := r.chance(1, 2) // the action gives up inside its first draw instead of calling Skip
 			for i := range m.Acts {
-				m.Acts[i].Steps = append([]Step{{Op: "skipif", Pred: Pred{Typ: "ctr", K: bound}}}, m.Acts[i].Steps...)
+				first := Step{Op: "skipif", Pred: Pred{Typ: "ctr", K: bound}}
+				if byInvalidDraw {
+					first = Step{Op: "invalidif", Pred: Pred{Typ: "ctr", K: bound}}
+				}
+				m.Acts[i].Steps = append([]Step{first}, m.Acts[i].Steps...)
 				has := false
 				for _, s := range m.Acts[i].Steps {
 					if s.Op == "draw" {
